@@ -181,37 +181,37 @@ def concrete(x):
 
 
 def _shapes(role, tier="quick"):
-  @obligation("C19", f"shapes-are-the-occupancies.{role}", tier=tier, functions=F, max_paths={"quick": 6000, "thorough": 60000},
-              bounds="7 obstacles of every role (static, trajectory, set-based, no prediction, phantom, environment, polygon-shaped); symbolic initial "
-                     f"time step 0..3 of {'every obstacle' if role == 'all' else 'the ' + role + ' (the others fixed)'} and symbolic window "
-                     "0 <= time_begin <= time_end <= time_begin+4, time_begin 0..8; time window set at the top level")
-  def shapes_are_occupancies(V):
-    warnings.filterwarnings("ignore")
-    sc = scenario(V, only=None if role == "all" else role)
-    tb, te = window(V)
-    fig = plt.figure(figsize=(4, 3))
-    try:
-        rnd = MPRenderer(ax=fig.gca())
-        shapes_only(rnd.draw_params)
-        rnd.draw_params.time_begin = tb
-        rnd.draw_params.time_end = te
-        sc.draw(rnd)
-        drawn = Counter(patch_signature(p) for p in rnd.obstacle_patches)
-        tbc, tec = concrete(tb), concrete(te)
-        want = expected_patches(sc, tbc, tec)
-        V.prove("every occupancy the model reports in the window is drawn", all(drawn[k] >= n for k, n in want.items()))
-        V.prove("nothing is drawn that the model does not report", all(want[k] >= n for k, n in drawn.items()))
-        fills = [c for c in rnd.static_collections if type(c).__name__ == "PolyCollection"]
-        got = Counter(sig_polygon(p.vertices) for c in fills[:1] for p in c.get_paths())
-        exp = Counter(sig_polygon(np.concatenate((l.right_vertices, np.flip(l.left_vertices, 0)))) for l in sc.lanelet_network.lanelets)
-        V.prove("all lanelets are drawn", got == exp)
-        rnd.render()
-        V.reach("draw and render completed")
-    finally:
-        plt.close(fig)
+    @obligation("C19", f"shapes-are-the-occupancies.{role}", tier=tier, functions=F, max_paths={"quick": 6000, "thorough": 60000},
+                bounds="7 obstacles of every role (static, trajectory, set-based, no prediction, phantom, environment, polygon-shaped); symbolic initial "
+                       f"time step 0..3 of {'every obstacle' if role == 'all' else 'the ' + role + ' (the others fixed)'} and symbolic window "
+                       "0 <= time_begin <= time_end <= time_begin+4, time_begin 0..8; time window set at the top level")
+    def shapes_are_occupancies(V):
+        warnings.filterwarnings("ignore")
+        sc = scenario(V, only=None if role == "all" else role)
+        tb, te = window(V)
+        fig = plt.figure(figsize=(4, 3))
+        try:
+            rnd = MPRenderer(ax=fig.gca())
+            shapes_only(rnd.draw_params)
+            rnd.draw_params.time_begin = tb
+            rnd.draw_params.time_end = te
+            sc.draw(rnd)
+            drawn = Counter(patch_signature(p) for p in rnd.obstacle_patches)
+            tbc, tec = concrete(tb), concrete(te)
+            want = expected_patches(sc, tbc, tec)
+            V.prove("every occupancy the model reports in the window is drawn", all(drawn[k] >= n for k, n in want.items()))
+            V.prove("nothing is drawn that the model does not report", all(want[k] >= n for k, n in drawn.items()))
+            fills = [c for c in rnd.static_collections if type(c).__name__ == "PolyCollection"]
+            got = Counter(sig_polygon(p.vertices) for c in fills[:1] for p in c.get_paths())
+            exp = Counter(sig_polygon(np.concatenate((l.right_vertices, np.flip(l.left_vertices, 0)))) for l in sc.lanelet_network.lanelets)
+            V.prove("all lanelets are drawn", got == exp)
+            rnd.render()
+            V.reach("draw and render completed")
+        finally:
+            plt.close(fig)
 
 
-  return shapes_are_occupancies
+    return shapes_are_occupancies
 
 
 for _r in ROLES:
